@@ -777,6 +777,14 @@ def frame_violations(nodes, before, after, toks, path, out):
             if not named(n, level) and a != b:
                 fam = "default-reset" if (default_of(n) is not None and a == default_of(n)) else "other"
                 out.append((here, fam))
+            # ... and a string field named exactly once as `--long=VALUE` holds VALUE afterwards, at every depth of flattening
+            # (seeded change seed4/C15-2: the update never reached a struct flattened into a flattened struct)
+            if n.kind == "long" and n.T == "str" and n.shape in ("plain", "opt") and not n.raw and not n.delim:
+                hits = [t for t in level if t == "--" + n.long or t.startswith("--" + n.long + "=")]
+                if len(hits) == 1 and "=" in hits[0] and "--" not in level and not any(ord(ch) > 126 for ch in hits[0]):
+                    want = hexs(hits[0].split("=", 1)[1])
+                    if (a if n.shape == "plain" else (a[1] if isinstance(a, list) and a[0] == "some" else None)) != want:
+                        out.append((here, "named-not-updated"))
         elif isinstance(n, Flatten):
             if not n.opt:
                 frame_violations(n.struct.nodes, b[1:], a[1:], level, here, out)
@@ -822,7 +830,7 @@ def dupdate_check(case, impl):
 def dupdate_oracle(case, impl):
     viol = dupdate_check(case, impl)
     if viol:
-        return "update changed fields not named on the command line: " + ", ".join("%s[%s]" % x for x in viol[:6])
+        return "update changed fields not named on the command line / left a named field as it was: " + ", ".join("%s[%s]" % x for x in viol[:6])
     return None
 
 
